@@ -37,3 +37,31 @@ CONTRACTS = [
         ],
     ),
 ]
+
+
+# "types are preserved": the last step of __set_name_and_type_handle_doc_in_param wraps the type read from the source in
+# Optional[...] on the strength of the PROSE.  On the pinned tree it does so for a description that starts with the
+# capitalised word 'Optional' / '(Optional)' (a known finding).  Everything else must leave the type it was given alone:
+# the block contract says exactly that, for every description, type string and flag.
+def _optional_block(txt):
+    # the innermost `if` whose whole body is the wrapping assignment (enclosing ifs contain the same text)
+    return txt.startswith("if ") and txt.count("\n") == 1 and "_param['typ'] = 'Optional[{typ}]'.format(" in txt.split("\n")[1]
+
+
+CONTRACTS.append(
+    Contract(
+        "cdd.shared.docstring_parsers:__set_name_and_type_handle_doc_in_param#optional-from-prose",
+        src="cdd.shared.docstring_parsers:__set_name_and_type_handle_doc_in_param",
+        block=_optional_block,
+        params={"_param": {"doc": "str", "typ?": "str"}, "was_none": "bool"},
+        ensures=[
+            "present(_param, 'typ') == present(old(_param), 'typ')",
+            "implies(present(old(_param), 'typ') and not was_none and not startswith(field(old(_param), 'doc'), 'Optional')"
+            " and not startswith(field(old(_param), 'doc'), '(Optional)'), field(_param, 'typ') == field(old(_param), 'typ'))",
+            # and when it does wrap, it wraps exactly the old type, once
+            "implies(present(old(_param), 'typ') and field(_param, 'typ') != field(old(_param), 'typ'),"
+            " field(_param, 'typ') == 'Optional[' + field(old(_param), 'typ') + ']' and not startswith(field(old(_param), 'typ'), 'Optional['))",
+            "field(_param, 'doc') == field(old(_param), 'doc')",
+        ],
+    )
+)
